@@ -34,6 +34,10 @@ def gen_cases(tier, seed):
     return rarsim.gen_rar_cases(tier, seed, 48 if q else 600, 8 if q else 60)
 
 
+def crash_signature(case, c):
+    return "crash/%s/%s/%s" % (case.get("kind"), "system-loss" if case.get("system") else "single-loss", c.etype)
+
+
 def run_case(case, rec):
     if not rarsim.hook_available():
         rec.inconcl("guarded hook JINNS_VERIF is not active in jinns.solver._rar")
